@@ -19,6 +19,20 @@
     ga|gs <type> <hex> <value>   recorded encoding with its recorded value       -> <value> <consumed> <hex of encode(value)>
     ts <type> <value> <ks>       serializer stack: encode, then decode the prefix of length k for every k in
                                  <ks> (`all` = 0..len, or k1,k2,...)   -> <value>@<consumed>|...
+
+  extension:
+    type also b8|c8|ll|ull       bool / char / long long / unsigned long long of the serializer stack: the
+                                 representation classes u8 / i8 / i64 / u64
+    sizes2                       sizeof of those four
+    cap <c|w|v> <cap> <payload hex> <type> <value> <rest>
+                                 dump(const char*,u16) | dump(buffer) | dump(string_view), then a value; read with
+                                 load(char*,cap) | load(writable_buffer of cap bytes), then the value
+                                 -> <hex> "<stored bytes>" <value> <consumed>
+    bw <type> <value>            binary_buffer_writer -> <hex>
+    dat <sc>:<N> <[value,...]> <rest>   archive::data<T>(xs, N) in a reflected type -> <hex> <[...]> <consumed>
+    wa|ws <type> <value> <rest>  like a|s but without the domain check (16-bit count wrap)
+    sl <hex> <n1,n2,...>         storage dumps, then loads(n) for each n -> <hex>|<hex>... <avail>
+    ta <type> <value> <k>        archive reader on the k-byte prefix of the encoding -> <value>@<consumed> | fault
 -/
 import IgrisModel.C09.Model
 open Igris.Proto Igris.C09
@@ -27,6 +41,8 @@ def scOf? : String → Option Sc
   | "u8" => some .u8 | "i8" => some .i8 | "u16" => some .u16 | "i16" => some .i16
   | "u32" => some .u32 | "i32" => some .i32 | "u64" => some .u64 | "i64" => some .i64
   | "f32" => some .f32 | "f64" => some .f64
+  -- further arithmetic types of the serializer stack, by representation class
+  | "b8" => some .u8 | "c8" => some .i8 | "ll" => some .i64 | "ull" => some .u64
   | _ => none
 
 def isIdent (c : Char) : Bool := c.isAlphanum
@@ -192,6 +208,15 @@ def roundTrip (enc : Ty → Val → List Byte) (dec : Ty → List Byte → Optio
   | some (v', r) => bytesHex e ++ " " ++ showVal ty v' ++ " " ++ toString (input.length - r.length)
   | none => bytesHex e ++ " fault"
 
+/-- the same without the domain check (values beyond the 16-bit count) -/
+def roundTripRaw (enc : Ty → Val → List Byte) (dec : Ty → List Byte → Option (Val × List Byte))
+    (ty : Ty) (v : Val) (rest : List Byte) : String :=
+  let e := enc ty v
+  let input := e ++ rest
+  match dec ty input with
+  | some (v', r) => bytesHex e ++ " " ++ showVal ty v' ++ " " ++ toString (input.length - r.length)
+  | none => bytesHex e ++ " fault"
+
 def seqTrip (enc : List Ty → List Val → List Byte)
     (dec : List Ty → List Byte → Option (List Val × List Byte)) (okb : List Ty → List Val → Bool)
     (ts : List Ty) (vs : List Val) (rest : List Byte) : String :=
@@ -211,10 +236,62 @@ def parseKs (s : String) (len : Nat) : Option (List Nat) :=
   if s = "all" then some (List.range (len + 1))
   else (s.splitOn ",").mapM String.toNat?
 
+/-- `loads(n)` for each n of the list on one storage -/
+def loadsSeq : List Nat → List Byte → List (List Byte) × List Byte
+  | [], rem => ([], rem)
+  | n :: ns, rem =>
+    match loadsS rem n with
+    | some (bs, r) => let (xs, r2) := loadsSeq ns r; (bs :: xs, r2)
+    | none => ([], rem)
+
+def cappedOp (kind : String) (cap : Nat) (payload : List Byte) (ty : Ty) (v : Val) (rest : List Byte) : String :=
+  if !wfb ty v || payload.length > 65535 then "illformed" else
+  let e := (if kind = "c" then dumpCharArr payload else dumpBuffer payload) ++ encodeA ty v
+  let input := e ++ rest
+  let first := if kind = "c" then loadCharArr input cap else loadWritable input cap
+  match first with
+  | none => bytesHex e ++ " fault"
+  | some (got, r) =>
+    match decodeA ty r with
+    | some (v', r2) => bytesHex e ++ " \"" ++ String.join (got.map byteHex) ++ "\" " ++ showVal ty v' ++ " " ++
+        toString (input.length - r2.length)
+    | none => bytesHex e ++ " fault"
+
 def stepLine (_ : Unit) (line : String) : Unit × String :=
   let r : Option String :=
     match words line with
     | ["sizes"] => some (" ".intercalate (allScs.map fun k => toString k.width))
+    | ["sizes2"] => some (" ".intercalate ([Sc.u8, .i8, .i64, .u64].map fun k => toString k.width))
+    | ["cap", kind, cap, payload, t, v, rest] => do
+        let ty ← parseTyStr t
+        let va ← parseValStr ty v
+        let c ← cap.toNat?
+        let pl ← parseBytes? payload
+        let rs ← parseBytes? rest
+        pure (cappedOp kind c pl ty va rs)
+    | ["bw", t, v] => do
+        let ty ← parseTyStr t
+        let va ← parseValStr ty v
+        if !wfb ty va then pure "illformed" else pure (bytesHex (encodeA ty va))
+    | ["sl", h, nss] => do
+        let bs ← parseBytes? h
+        let ns ← (nss.splitOn ",").mapM String.toNat?
+        let (xs, r) := loadsSeq ns bs
+        pure ("|".intercalate (xs.map bytesHex) ++ " " ++ toString r.length)
+    | ["dat", key, v, rest] => do
+        match key.splitOn ":" with
+        | [scn, ns] => do
+            let k ← scOf? scn
+            let n ← ns.toNat?
+            let va ← parseValStr (.vec (.sc k)) v
+            let rs ← parseBytes? rest
+            if va.items.length ≠ n then none else
+            let e := encodeData k va.items
+            let input := e ++ rs
+            match decodeData k n input with
+            | some (xs, r) => pure (bytesHex e ++ " " ++ showVal (.vec (.sc k)) (.list xs) ++ " " ++ toString (input.length - r.length))
+            | none => pure (bytesHex e ++ " fault")
+        | _ => none
     | [op, t, v, rest] => do
         let ty ← parseTyStr t
         if op = "ga" ∨ op = "gs" then
@@ -228,6 +305,19 @@ def stepLine (_ : Unit) (line : String) : Unit × String :=
         else
         let va ← parseValStr ty v
         match op with
+        | "wa" => do
+            let rs ← parseBytes? rest
+            pure (roundTripRaw encodeA decodeA ty va rs)
+        | "ws" => do
+            let rs ← parseBytes? rest
+            if !ty.supportedS then pure "unsupported" else
+            pure (roundTripRaw encodeS decodeS ty va rs)
+        | "ta" => do
+            let k ← rest.toNat?
+            let input := (encodeA ty va).take k
+            match decodeA ty input with
+            | some (v', r) => pure (showVal ty v' ++ "@" ++ toString (input.length - r.length))
+            | none => pure "fault"
         | "a" => do
             let rs ← parseBytes? rest
             pure (roundTrip encodeA decodeA ty va rs)
